@@ -1,2 +1,292 @@
-//! Harnesses for property C05 (see /verif/properties.jsonl).
+//! Harnesses for property C05 (see /verif/properties.jsonl): offset = ((T2-T1)+(T3-T4))/2,
+//! delay = (T4-T1)-(T3-T2) across era boundaries; one-way offset = remote - local.
 use crate::stubs;
+use ntp_proto::verif::algorithm as ah;
+use ntp_proto::verif::algorithm::{InternalMeasurement, InternalSourceController};
+use ntp_proto::verif::source as sh;
+use ntp_proto::verif::time_types as tt;
+use ntp_proto::{
+    Measurement, NoCipher, NtpDuration, NtpLeapIndicator, NtpPacket, NtpTimestamp, ObservableSourceTimedata, PollInterval,
+    SourceController,
+};
+
+// ghost record of what reached the inner (filter-side) controller
+static mut M_N: usize = 0;
+static mut M_OFFSET: i64 = 0;
+static mut M_DELAY: i64 = 0;
+static mut M_LOCAL: u64 = 0;
+static mut M_ROOT_DELAY: i64 = 0;
+static mut M_ROOT_DISP: i64 = 0;
+static mut M_LEAP: u8 = 0xff;
+static mut M_PRECISION: i8 = 0;
+
+fn record<D: std::fmt::Debug + Copy>(m: &InternalMeasurement<D>, delay: i64) {
+    unsafe {
+        M_N += 1;
+        M_OFFSET = tt::dur_raw(m.offset);
+        M_DELAY = delay;
+        M_LOCAL = tt::ts_raw(m.localtime);
+        M_ROOT_DELAY = tt::dur_raw(m.root_delay);
+        M_ROOT_DISP = tt::dur_raw(m.root_dispersion);
+        M_LEAP = crate::common::leap_code(m.leap);
+        M_PRECISION = m.precision;
+    }
+}
+
+struct RecTwoWay;
+impl InternalSourceController for RecTwoWay {
+    type ControllerMessage = ();
+    type SourceMessage = ();
+    type MeasurementDelay = NtpDuration;
+    fn handle_message(&mut self, _m: ()) {}
+    fn handle_measurement(&mut self, m: InternalMeasurement<NtpDuration>) -> Option<()> {
+        record(&m, tt::dur_raw(m.delay));
+        None
+    }
+    fn desired_poll_interval(&self) -> PollInterval {
+        PollInterval::default()
+    }
+    fn observe(&self) -> ObservableSourceTimedata {
+        ObservableSourceTimedata::default()
+    }
+}
+struct RecOneWay;
+impl InternalSourceController for RecOneWay {
+    type ControllerMessage = ();
+    type SourceMessage = ();
+    type MeasurementDelay = ();
+    fn handle_message(&mut self, _m: ()) {}
+    fn handle_measurement(&mut self, m: InternalMeasurement<()>) -> Option<()> {
+        record(&m, 0);
+        None
+    }
+    fn desired_poll_interval(&self) -> PollInterval {
+        PollInterval::default()
+    }
+    fn observe(&self) -> ObservableSourceTimedata {
+        ObservableSourceTimedata::default()
+    }
+}
+
+/// shortest signed difference a - b of two 64-bit era-wrapping timestamps
+fn wrap(a: u64, b: u64) -> i128 {
+    let m = (a as i128 - b as i128).rem_euclid(1i128 << 64);
+    if m >= (1i128 << 63) { m - (1i128 << 64) } else { m }
+}
+fn fits(x: i128) -> bool {
+    x >= i64::MIN as i128 && x <= i64::MAX as i128
+}
+fn clamp64(x: i128) -> i64 {
+    if x > i64::MAX as i128 {
+        i64::MAX
+    } else if x < i64::MIN as i128 {
+        i64::MIN
+    } else {
+        x as i64
+    }
+}
+
+fn meas(sender: u64, receiver: u64, sts: u64, rts: u64, rd: i64, rdisp: i64, leap: u8, precision: i8) -> Measurement {
+    Measurement {
+        sender_id: sh::clock_id(sender),
+        receiver_id: sh::clock_id(receiver),
+        sender_ts: tt::ts_from_raw(sts),
+        receiver_ts: tt::ts_from_raw(rts),
+        root_delay: tt::dur_from_raw(rd),
+        root_dispersion: tt::dur_from_raw(rdisp),
+        leap: crate::common::leap_from_code(leap),
+        precision,
+    }
+}
+
+// The real two-way wrapper: outgoing measurement (T1 = local send, T2 = remote receive) then
+// incoming measurement (T3 = remote transmit, T4 = local receive).
+harness! {
+    fn c05_twoway() {
+        let t1: u64 = kani::any();
+        let t2: u64 = kani::any();
+        let t3: u64 = kani::any();
+        let t4: u64 = kani::any();
+        let id: u64 = kani::any();
+        kani::assume(id != 0); // ClockId::SYSTEM (0) marks the outgoing direction
+        let rd: i64 = kani::any();
+        let rdisp: i64 = kani::any();
+        let leap: u8 = kani::any();
+        kani::assume(leap <= 4);
+        let precision: i8 = kani::any();
+
+        let (mut w, rx) = ah::twoway_wrapper(sh::clock_id(id), RecTwoWay);
+        w.handle_measurement(meas(0, id, t1, t2, rd, rdisp, leap, precision));
+        unsafe { assert!(M_N == 0, "an outgoing measurement alone produces no sample"); }
+        assert!(ah::twoway_has_outgoing(&w), "outgoing half stored");
+        w.handle_measurement(meas(id, 0, t3, t4, rd, rdisp, leap, precision));
+        // dropping the wrapper would send on the tokio channel (not modelled): leak both halves
+        std::mem::forget(w);
+        std::mem::forget(rx);
+
+        let a = wrap(t2, t1);
+        let b = wrap(t3, t4);
+        let c = wrap(t4, t1);
+        let d = wrap(t3, t2);
+        unsafe {
+            assert!(M_N == 1, "exactly one sample reaches the filter");
+            if fits(a + b) {
+                assert!(M_OFFSET as i128 == (a + b) / 2, "offset = ((T2-T1)+(T3-T4))/2");
+            } else {
+                assert!(M_OFFSET as i128 == clamp64(a + b) as i128 / 2, "offset saturates when the sum is not representable");
+            }
+            if fits(c - d) {
+                assert!(M_DELAY as i128 == c - d, "delay = (T4-T1)-(T3-T2)");
+            } else {
+                assert!(M_DELAY == clamp64(c - d), "delay saturates when the difference is not representable");
+            }
+            assert!(M_LOCAL == t4, "the sample is stamped with the local receive time");
+            assert!(M_ROOT_DELAY == rd && M_ROOT_DISP == rdisp && M_LEAP == leap && M_PRECISION == precision, "remote data passed through");
+            kani::cover!(t2 < t1 && a > 0, "era wrap between T1 and T2");
+            kani::cover!(M_OFFSET < 0 && (a + b) % 2 != 0, "odd negative sum (rounding toward zero)");
+            kani::cover!(M_DELAY < 0, "negative delay");
+            kani::cover!(!fits(a + b), "offset sum not representable");
+        }
+    }
+}
+
+// incoming measurement without a stored outgoing one: nothing reaches the filter
+harness! {
+    fn c05_twoway_needs_outgoing() {
+        let t3: u64 = kani::any();
+        let t4: u64 = kani::any();
+        let id: u64 = kani::any();
+        kani::assume(id != 0);
+        let (mut w, rx) = ah::twoway_wrapper(sh::clock_id(id), RecTwoWay);
+        w.handle_measurement(meas(id, 0, t3, t4, 0, 0, 0, 0));
+        std::mem::forget(w);
+        std::mem::forget(rx);
+        unsafe { assert!(M_N == 0, "no sample without the outgoing half"); }
+    }
+}
+
+// One-way sources (GPSd, PPS): offset = remote (sender) - local (receiver).
+harness! {
+    fn c05_oneway() {
+        let ts_remote: u64 = kani::any();
+        let ts_local: u64 = kani::any();
+        let id: u64 = kani::any();
+        let rd: i64 = kani::any();
+        let rdisp: i64 = kani::any();
+        let leap: u8 = kani::any();
+        kani::assume(leap <= 4);
+        let precision: i8 = kani::any();
+        let (mut w, rx) = ah::oneway_wrapper(sh::clock_id(id), RecOneWay);
+        w.handle_measurement(meas(id, 0, ts_remote, ts_local, rd, rdisp, leap, precision));
+        std::mem::forget(w);
+        std::mem::forget(rx);
+        unsafe {
+            assert!(M_N == 1, "one sample");
+            assert!(M_OFFSET as i128 == wrap(ts_remote, ts_local), "offset = remote time - local time");
+            assert!(M_LOCAL == ts_local, "stamped with the local time");
+            assert!(M_ROOT_DELAY == rd && M_ROOT_DISP == rdisp && M_LEAP == leap && M_PRECISION == precision, "remote data passed through");
+            kani::cover!(ts_remote < ts_local && M_OFFSET > 0, "era wrap");
+            kani::cover!(M_OFFSET < 0, "remote behind local");
+        }
+    }
+}
+
+// `measurements_from_packet`: which packet field / local time becomes which of T1..T4.
+// The packet is built from raw header fields through a hook (decoding 48 symbolic bytes with
+// `NtpPacket::deserialize` did not get through symbolic execution in 10 minutes here; the
+// wire layout is C23/C24's subject).
+#[kani::proof]
+fn c05_map() {
+    let v3: bool = kani::any();
+    let leap: u8 = kani::any();
+    kani::assume(leap <= 4);
+    let stratum: u8 = kani::any();
+    let poll: i8 = kani::any();
+    let precision: i8 = kani::any();
+    let rd: i64 = kani::any();
+    let rdisp: i64 = kani::any();
+    let ref_ts: u64 = kani::any();
+    let org_ts: u64 = kani::any();
+    let rx_ts: u64 = kani::any();
+    let tx_ts: u64 = kani::any();
+    let send: u64 = kani::any();
+    let recv: u64 = kani::any();
+    let id: u64 = kani::any();
+    let pkt = ntp_proto::verif::packet::packet_v3v4_from_raw(
+        v3,
+        crate::common::leap_from_code(leap),
+        ntp_proto::NtpAssociationMode::Server,
+        stratum,
+        tt::poll_from_raw(poll),
+        precision,
+        tt::dur_from_raw(rd),
+        tt::dur_from_raw(rdisp),
+        ntp_proto::ReferenceId::NONE,
+        tt::ts_from_raw(ref_ts),
+        tt::ts_from_raw(org_ts),
+        tt::ts_from_raw(rx_ts),
+        tt::ts_from_raw(tx_ts),
+    );
+    let (out, inc) = sh::measurements_from_packet_hook(&pkt, sh::clock_id(id), tt::ts_from_raw(send), tt::ts_from_raw(recv));
+    assert!(out.sender_id == sh::clock_id(0) && out.receiver_id == sh::clock_id(id), "outgoing: system -> source");
+    assert!(inc.sender_id == sh::clock_id(id) && inc.receiver_id == sh::clock_id(0), "incoming: source -> system");
+    assert!(tt::ts_raw(out.sender_ts) == send, "T1 = local send time");
+    assert!(tt::ts_raw(out.receiver_ts) == rx_ts, "T2 = packet receive timestamp");
+    assert!(tt::ts_raw(inc.sender_ts) == tx_ts, "T3 = packet transmit timestamp");
+    assert!(tt::ts_raw(inc.receiver_ts) == recv, "T4 = local receive time");
+    assert!(tt::dur_raw(out.root_delay) == rd && tt::dur_raw(inc.root_delay) == rd, "root delay passed through");
+    assert!(tt::dur_raw(out.root_dispersion) == rdisp && tt::dur_raw(inc.root_dispersion) == rdisp, "root dispersion passed through");
+    assert!(out.precision == precision && inc.precision == precision, "precision passed through");
+    assert!(crate::common::leap_code(out.leap) == leap && crate::common::leap_code(inc.leap) == leap, "leap indicator passed through");
+    kani::cover!(rx_ts > tx_ts, "receive after transmit numerically (era wrap)");
+    kani::cover!(v3 && org_ts != send, "version 3 packet, origin differs from the send time");
+}
+
+// End to end: packet -> measurements -> two-way wrapper -> filter sample.
+harness! {
+    fn c05_packet_to_sample() {
+        let v3: bool = kani::any();
+        let rx_ts: u64 = kani::any();
+        let tx_ts: u64 = kani::any();
+        let send: u64 = kani::any();
+        let recv: u64 = kani::any();
+        let id: u64 = kani::any();
+        kani::assume(id != 0);
+        let pkt = ntp_proto::verif::packet::packet_v3v4_from_raw(
+            v3,
+            NtpLeapIndicator::NoWarning,
+            ntp_proto::NtpAssociationMode::Server,
+            2,
+            tt::poll_from_raw(4),
+            -20,
+            tt::dur_from_raw(0),
+            tt::dur_from_raw(0),
+            ntp_proto::ReferenceId::NONE,
+            tt::ts_from_raw(0),
+            tt::ts_from_raw(send),
+            tt::ts_from_raw(rx_ts),
+            tt::ts_from_raw(tx_ts),
+        );
+        let (out, inc) = sh::measurements_from_packet_hook(&pkt, sh::clock_id(id), tt::ts_from_raw(send), tt::ts_from_raw(recv));
+        let (mut w, rx) = ah::twoway_wrapper(sh::clock_id(id), RecTwoWay);
+        // same order as NtpSource::handle_incoming
+        w.handle_measurement(out);
+        w.handle_measurement(inc);
+        std::mem::forget(w);
+        std::mem::forget(rx);
+        let a = wrap(rx_ts, send);
+        let b = wrap(tx_ts, recv);
+        let c = wrap(recv, send);
+        let d = wrap(tx_ts, rx_ts);
+        unsafe {
+            assert!(M_N == 1, "one sample per exchange");
+            if fits(a + b) {
+                assert!(M_OFFSET as i128 == (a + b) / 2, "offset = ((T2-T1)+(T3-T4))/2 from packet and local times");
+            }
+            if fits(c - d) {
+                assert!(M_DELAY as i128 == c - d, "delay = (T4-T1)-(T3-T2) from packet and local times");
+            }
+            kani::cover!(M_OFFSET > 0 && M_DELAY > 0, "server ahead, positive delay");
+        }
+    }
+}
